@@ -127,6 +127,7 @@ def gen_case(rng, tier, params=None):
                        "join_returns": 1, "jte": 2 if cfg.chance(0.7) else 0},
         "pre_stages": cfg.weighted([(0, 3), (1, 1), (2, 3), (3, 2)]) if focus == "C14" else cfg.weighted([(0, 5), (1, 1), (2, 1), (3, 1)]),
         "literal_names": cfg.chance(0.4),
+        "allow_be_in_S": cfg.chance(0.15),
         "style": style,
     }
     return {"engine": "histsim", "workload": wl, "conf": conf,
@@ -216,6 +217,12 @@ def gen_op(w, rng, conf):
         return {"op": "name", "method": method, "kind": rng.choice(pool), "where": path}
     # edit
     path = rng.choice(paths) if (len(paths) > 1 and rng.chance(0.35)) else []
+    if len(paths) > 1 and rng.chance(0.2):
+        # reach probe "predecessor with a declared back edge": such blocks only
+        # live inside loop regions
+        bepaths = [pp for pp in paths if any(b.backedges for b in graph_at(w.g, pp).graph.values())]
+        if bepaths:
+            path = rng.choice(bepaths)
     G = graph_at(w.g, path)
     names = list(G.graph.keys())
     ek = rng.weighted(sorted(conf["edit_kinds"].items()))
@@ -225,12 +232,15 @@ def gen_op(w, rng, conf):
     for n in names:
         b = G.graph[n]
         for t in b._jump_targets:
-            if t in preds and t not in b.backedges:
+            if t in preds and (t not in b.backedges or conf.get("allow_be_in_S")):
                 preds[t].append(n)
     with_pred = [n for n in names if preds[n]]
     if not with_pred:
         return {"op": "edit", "kind": "join_returns", "where": path}
     s0 = rng.choice(with_pred)
+    be_targets = [t for n in names if G.graph[n].backedges for t in G.graph[n]._jump_targets if t in preds and preds[t]]
+    if be_targets and rng.chance(0.5):
+        s0 = rng.choice(be_targets)
     S = [s0]
     nS = rng.weighted([(1, 6), (2, 3), (3, 1)])
     if ek == "insert" and not conf["allow_multi_S_plain"]:
@@ -258,7 +268,8 @@ def gen_op(w, rng, conf):
         if extra not in cand:
             cand.append(extra)
     # bias towards interesting predecessors
-    interesting = [p for p in cand if is_region(G.graph[p]) or isinstance(G.graph[p], SyntheticBranch)]
+    interesting = [p for p in cand if is_region(G.graph[p]) or isinstance(G.graph[p], SyntheticBranch)
+                   or G.graph[p].backedges]
     k = rng.randint(1, min(4, len(cand)))
     P = rng.sample(cand, k)
     if interesting and rng.chance(0.7):
@@ -270,8 +281,9 @@ def gen_op(w, rng, conf):
         P = rng.sample(exits, min(len(exits), rng.randint(1, 2))) if exits and rng.chance(0.7) else P[:1]
     if not conf["allow_overlap"]:
         P = [p for p in P if p not in S]
-    # never put a back-edge target of p into S
-    P = [p for p in P if not (set(G.graph[p].backedges) & set(S))]
+    # (almost) never put a back-edge target of p into S: the statement is silent there
+    if not conf.get("allow_be_in_S"):
+        P = [p for p in P if not (set(G.graph[p].backedges) & set(S))]
     if not P:
         return {"op": "edit", "kind": "join_returns", "where": path}
     P = sorted(set(P), key=P.index)
@@ -396,7 +408,8 @@ def do_edit(w, op):
     S = [s for s in op["S"] if s in G.graph]
     if not P or (op["S"] and not S):
         return "skip"
-    if any(set(G.graph[p].backedges) & set(S) for p in P):
+    be_in_S = any(set(G.graph[p].backedges) & set(S) for p in P)
+    if be_in_S and (kind == "control" or not w.case["conf"].get("allow_be_in_S")):
         return "skip"
     if any(is_region(G.graph[p]) for p in P) and hier.state_invariants(w.g, want=("C04",)):
         # a region predecessor in a hierarchy that is not self-consistent (a stage
@@ -446,8 +459,10 @@ def do_edit(w, op):
         errs = models.post_insert(G, pre, new, P, S, op["btype"], new_was_present)
     for cls, det in errs:
         w.viol("C14", cls, shape, new, det, {"tags": tags})
-    if errs or not preserving or new_was_present:
+    if errs or not preserving or new_was_present or be_in_S:
         w.path_ok = False
+    if be_in_S:
+        w.probe_hit("edit:backedge-target-in-S")
     targeted = set(t for r in pre.values() for t in r["targets"])
     if any(s_ not in targeted for s_ in S):
         # S names a block nothing pointed at (the head of this graph): legal,
